@@ -3,11 +3,3 @@ HOOK_COMMITS = []
 _PENDING = "check not built yet in this round; will be claimed when its model, theorems and correspondence stream exist (see DESIGN.md section 3)"
 NOT_APPLICABLE = {f"C{n:02d}": _PENDING for n in range(1, 21)}
 
-TEXT = {
-    "C09": {
-        "level": "Lean 4 theorems (inset_exact, inSetIp_exact, cidr_as_range, bsearch_exact, merge_*): for every list of ranges of any length/order/overlap and every start-sorted permutation the sort may produce, RangeSet::from + contains is true exactly when some listed item contains x; per-family split and CIDR=first..=last proved on Nat. The model is a line-by-line transcription of range_set.rs (59 lines) and of the OneOf arm; it is tied to the code by an exhaustive small-domain + random differential run through real `in {...}` filters and by the extracted comparison operators.",
-        "design_ref": "DESIGN.md section 3, C09",
-        "note": "Trusted: Lean kernel; axioms propext/Classical.choice/Quot.sound; extractor; harness. Modelled not verified: std sort_unstable_by_key (theorem holds for every start-sorted permutation), dedup_by, binary_search_by (halving search with the same comparator), BTreeSet, cidr crate first/last address, literal parsing of the rendered items.",
-        "technique": "Lean 4 proof over executable model + differential correspondence with the real engine",
-    },
-}
